@@ -46,10 +46,32 @@ Definition total_bodies (l : list code) : nat := fold_right (fun c n => count_bo
 
 (* ---------------------------------------------------------------- executed paths of the real VM *)
 (* trace = the opIndex of every executed top-level instruction (Config.PrintBytecode);
-   ended: 0 = run finished without error, 1 = ctx.Error set, 2 = Go panic;
-   top = ctx.StackTop() afterwards. *)
+   ended: 0 = run finished without error, 1 = ctx.Error set (other than E3), 2 = Go panic raised by
+   evaluate() itself, 3 = the VM's structural guard fired ("E3:无效的表达式");
+   top = ctx.StackTop() afterwards.
+
+   The one structural failure after which the real VM CONTINUES is a missing detail span
+   (lastDetail() fabricates an empty one): the replay continues there as with one span. *)
+Definition with_one_det (s : sstate) : sstate :=
+  {| pc := pc s; h := h s; blocks := blocks s; fblocks := fblocks s; dice := dice s; dets := 1; lastpop := lastpop s |}.
+
 Definition succs (c : code) (s : sstate) : list sstate :=
-  match sstep c s with Next l => l | _ => [] end.
+  match sstep c s with
+  | Next l => l
+  | Stuck NoDetail => match sstep c (with_one_det s) with Next l => l | _ => [] end
+  | _ => []
+  end.
+
+(* instructions that can run other code (function bodies, computed values, the default-sides
+   expression, custom dice): an E3 reported there may come from the nested run *)
+Definition may_nest (c : code) (s : sstate) : bool :=
+  match nth_error c (pc s) with
+  | Some i => match i_t i with
+              | 12 | 14 | 15 | 16 | 20 | 22 | 24 | 25 | 23 | 56 => true
+              | _ => false
+              end%N
+  | None => false
+  end.
 
 Definition at_pc (p : nat) (l : list sstate) : list sstate := filter (fun s => pc s =? p) l.
 
@@ -69,8 +91,8 @@ Fixpoint follow (c : code) (cur : list sstate) (tr : list nat) : option (list ss
 Definition ends_with (c : code) (top : nat) (s : sstate) : bool :=
   match sstep c s with
   | Halt => h s =? top
-  | Next l => existsb (fun s' => (pc s' =? List.length c) && (h s' =? top)) l
   | Stuck _ => false
+  | Next _ => existsb (fun s' => (pc s' =? List.length c) && (h s' =? top)) (succs c s)
   end.
 
 Definition is_stuck (c : code) (s : sstate) : bool :=
@@ -88,8 +110,10 @@ Definition trace_ok (tc : trace_case) : bool :=
     | Some last =>
       match ended with
       | 0%N => existsb (ends_with c top) last         (* normal end: heights agree *)
-      | 1%N => true                                   (* error at the last instruction *)
-      | _ => existsb (is_stuck c) last                (* panic inside evaluate: the model must be stuck there *)
+      | 1%N => true                                   (* value-dependent error at the last instruction *)
+      | 2%N => existsb (is_stuck c) last              (* panic inside evaluate: the model must be stuck there *)
+      | _ => if existsb (is_stuck c) last then true   (* E3: the model must be stuck there ... *)
+             else existsb (may_nest c) last           (* ... unless the error came out of nested code *)
       end
     end
   end.
